@@ -12,7 +12,7 @@ from ..oracles import graph as og
 PROPERTY = "C19"
 RULE = ("Cases = (x, y, thresh, tail, paired, k, seed): subject stacks of symmetric n x n matrices, n=4..8, group sizes 3..7 (different for the "
         "unpaired test), values on a half-integer grid, planted effects of either sign on a random edge subset, optional constant edges (zero "
-        "variance in both groups), thresh in {.5,1,2,3}, all three tails, k in 2..20. Oracle = scipy.stats t statistics (pooled two-sample / "
+        "variance in both groups), thresh in {.5,1,2,3,-.5,-1}, the data also in other units (x 2^-70, 2^40, 2^-400; a few connections x 2^-70), with a common baseline of 65536, stored as float32; all three tails, k in 2..20. Oracle = scipy.stats t statistics (pooled two-sample / "
         "paired; zero pooled variance -> 0), BFS components of the suprathreshold graph, p = #(null >= size)/k recomputed from the returned "
         "null, and a recording RandomState passed as `seed` so that every null value can be recomputed from the relabelling actually drawn; "
         "metamorphic: swapping the groups with the mirrored tail and reordering subjects within a group leave the labelled components "
@@ -123,8 +123,15 @@ def check(case, ctx):
         return fails
     supra = t > thresh
 
+    dt = case.get("dtype", "float64")
+    if dt != "float64":
+        ctx.label("input-dtype:" + dt)
+    if thresh < 0:
+        ctx.label("negative-threshold")
+    if case.get("unit", "1") != "1":
+        ctx.label("unit:" + str(case.get("unit")))
     rec = Recorder(seed)
-    o = ctx.call(bct.nbs_bct, gen.layout(x.copy(), case.get("order")), gen.layout(y.copy(), case.get("order")), thresh, k=k, tail=tail,
+    o = ctx.call(bct.nbs_bct, gen.layout(x.astype(dt), case.get("order")), gen.layout(y.astype(dt), case.get("order")), thresh, k=k, tail=tail,
                  paired=paired, seed=rec, timeout=30)
     if o.status == "timeout":
         return fails
@@ -278,7 +285,7 @@ def cases(draw, rich=False):
     m = len(ii)
     base = draw(st.lists(st.integers(-3, 3), min_size=m, max_size=m))
     # planted effects on a subset of edges, either sign; some constant edges
-    role = draw(st.lists(st.sampled_from(["null", "null", "null", "up", "up", "down", "const"]), min_size=m, max_size=m))
+    role = draw(st.lists(st.sampled_from(["null", "null", "zero", "up", "up", "down", "const", "null"]), min_size=m, max_size=m))
 
     def stack(k, shift_sign):
         noise = draw(st.lists(st.integers(-2, 2), min_size=m * k, max_size=m * k))
@@ -287,7 +294,9 @@ def cases(draw, rich=False):
         for e in range(m):
             for s in range(k):
                 v = next(it)
-                if role[e] == "const":
+                if role[e] == "zero":
+                    val = 0.0           # a connection absent in every subject of both groups (sparse networks)
+                elif role[e] == "const":
                     val = base[e] / 2.0
                 else:
                     val = (base[e] + v) / 2.0
@@ -301,14 +310,36 @@ def cases(draw, rich=False):
     y = stack(ny, 0)
     perm_x = list(draw(st.permutations(list(range(nx)))))
     perm_y = list(draw(st.permutations(list(range(ny)))))
+    # the same data in another unit (t statistics do not depend on the unit), a few connections in a much smaller unit than the rest,
+    # a large common baseline, single-precision storage (all values stay exactly representable, so the float64 oracle sees the same numbers)
+    unit = draw(st.sampled_from(["1", "1", "2^-70", "some-2^-70", "2^40", "2^-400", "baseline", "baseline+float32", "float32"]))
+    dtype = "float64"
+    if unit in ("2^-70", "2^40", "2^-400"):
+        f = {"2^-70": 2.0 ** -70, "2^40": 2.0 ** 40, "2^-400": 2.0 ** -400}[unit]
+        x, y = x * f, y * f
+    elif unit == "some-2^-70":
+        pick = draw(st.lists(st.booleans(), min_size=m, max_size=m))
+        for e in range(m):
+            if pick[e]:
+                for Z in (x, y):
+                    Z[ii[e], jj[e], :] *= 2.0 ** -70
+                    Z[jj[e], ii[e], :] *= 2.0 ** -70
+    elif unit.startswith("baseline"):
+        off = ~np.eye(n, dtype=bool)
+        # deviations of 1/128 on a baseline of 2^16: exactly the resolution of single precision there
+        x[off] = 65536.0 + x[off] / 64.0
+        y[off] = 65536.0 + y[off] / 64.0
+    if unit.endswith("float32"):
+        dtype = "float32"
+    neg = [-1.0, -0.5]
     if rich:
         # many relabellings with several mid-sized components: mid threshold, many permutations
         return {"x": x, "y": y, "thresh": draw(st.sampled_from([1.0, 1.5, 2.0])), "tail": draw(st.sampled_from(["both", "both", "left", "right"])),
                 "paired": paired, "k": draw(st.integers(15, 30)), "seed": draw(gen.seeds()), "perm_x": perm_x, "perm_y": perm_y,
-                "order": draw(st.sampled_from(gen.ORDERS))}
-    return {"x": x, "y": y, "thresh": draw(st.sampled_from([1.0, 0.5, 2.0, 3.0])), "tail": draw(st.sampled_from(["left", "both", "right"])),
+                "order": draw(st.sampled_from(gen.ORDERS)), "unit": unit, "dtype": dtype}
+    return {"x": x, "y": y, "thresh": draw(st.sampled_from([1.0, 0.5, 2.0, 3.0, -1.0, 1.0, -0.5])), "tail": draw(st.sampled_from(["left", "both", "right"])),
             "paired": paired, "k": draw(st.integers(2, 20)), "seed": draw(gen.seeds()), "perm_x": perm_x, "perm_y": perm_y,
-            "order": draw(st.sampled_from(gen.ORDERS))}
+            "order": draw(st.sampled_from(gen.ORDERS)), "unit": unit, "dtype": dtype}
 
 
 def units(tier):
